@@ -5,6 +5,9 @@ PROP = {
   "saml2_tophat.entity:Entity.response_args[AuthnRequest]",
   "saml2_tophat.mdstore:destinations"
  ],
+ "bounded": [
+  "endpoint_choice"
+ ],
  "level": "proof",
  "level_text": "pick_binding (service = assertion_consumer_service) and response_args (AuthnRequest) are verified against the statement: the destination is one of the endpoints the metadata store returns for the requester, a supplied URL is honoured only when equal to a registered one, no destination for an unknown requester (the store's errors propagate). The metadata lookups themselves are assumed here by contract (C16).",
  "not_decided": [
